@@ -122,11 +122,13 @@ def build(tier, work, builder):
           X.function(eb, "ExpressionBuilder::make_constant(int)", r"^expression_t ExpressionBuilder::make_constant\(int value\) const"),
           X.function(eb, "ExpressionBuilder::expr_proba_quantitative", r"^void ExpressionBuilder::expr_proba_quantitative\(Constants::kind_t pathType\)"),
           X.function(eb, "ExpressionBuilder::expr_proba_qualitative", r"^void ExpressionBuilder::expr_proba_qualitative\(Constants::kind_t pathType, Constants::kind_t comp, double probBound\)"),
+          X.function(eb, "ExpressionBuilder::expr_proba_compare", r"^void ExpressionBuilder::expr_proba_compare\(Constants::kind_t pathType1, Constants::kind_t pathType2\)"),
           X.function(eb, "ExpressionBuilder::expr_proba_expected", r"^void ExpressionBuilder::expr_proba_expected\(const char\* aggregatingOp\)")]
     for sl in bl:
         sl.sub("L15:auto&->expression_t&", r"auto& (\w+) = fragments\[", r"expression_t& \1 = fragments[")
         sl.sub("L15:auto->bool", r"auto invert = ", "bool invert = ")
         sl.sub("L23:std::move(x)->x", r"std::move\((\w+)\)", r"\1")
+        sl.sub("L9:throw->ghost flag", r"throw TypeException\(\"[^\"]*\"\);", "{ verif_thrown = 1; return; }")
         # auto args = std::vector<expression_t>{a, b, ...};  ->  vector built by push_back in the same order (L4)
         m = re.search(r"auto args = std::vector<expression_t>\{(.*?)\};", sl.text, re.S)
         if m:
@@ -156,19 +158,40 @@ def build(tier, work, builder):
     pbt.sub("L12:print on a child->contract", r"\be\.print\(", "e.print__contract(", required=True)
     ist = X.function(src, "expression_t::is_true", r"^bool expression_t::is_true\(\) const")
     qcl = []
-    for lab in ("PROBA_MIN_BOX", "PROBA_MIN_DIAMOND", "PROBA_BOX", "PROBA_DIAMOND", "PROBA_EXP"):  # X_BOX sets the flag and falls through into X_DIAMOND
+    for lab in ("PROBA_MIN_BOX", "PROBA_MIN_DIAMOND", "PROBA_BOX", "PROBA_DIAMOND", "PROBA_EXP", "PROBA_CMP"):  # X_BOX sets the flag and falls through into X_DIAMOND
         cl = X.switch_clause(src, f"expression_t::print:case {lab}", pf, lab)
         cl.sub("L12:print on a child->contract", r"\)\.print\(", ").print__contract(")
+        X.lower_local_lambdas(cl)
+        cl.sub("glue:kind_t::BOX->BOX", r"\bkind_t::(BOX|DIAMOND)\b", r"\1")
         qcl.append(cl)
     qtxt = (ist.text + "\n" + pbt.text + "\nstd::ostream& expression_t::print_query_clauses(std::ostream& os, bool old) const\n{\n    bool flag = false;\n"
             "    switch (data->kind) {\n" + "\n".join(c.text for c in qcl) + "\n    default: break;\n    }\n    return os;\n}\n")
+    # ---- K3: floating-point constants as text: the CONSTANT clause of print, the probability bound of the qualitative
+    #      query clause (already in qcl), and the static conversion helper they call, if the source has one
+    ccl = X.switch_clause(src, "expression_t::print:case CONSTANT", pf, "CONSTANT")
+    ccl.sub("L19:std::get<int32_t>(variant)->tagged struct member", r"std::get<int32_t>\(data->value\)", "data->value.i")
+    qtxt += ("std::ostream& expression_t::print_constant_clause(std::ostream& os, bool old) const\n{\n    switch (data->kind) {\n"
+             + ccl.text + "\n    default: break;\n    }\n    return os;\n}\n")
+    # static `std::ostream& NAME(std::ostream&, double)` functions of expression.cpp that the clauses call
+    helper_names = sorted(n for n in set(re.findall(r"^static (?:inline )?std::ostream& (\w+)\(std::ostream& \w+, double \w+\)", src.text, re.M))
+                          if re.search(r"\b%s\(" % re.escape(n), ccl.text + "".join(c.text for c in qcl)))
+    helpers = []
+    for hn in helper_names:
+        helpers.append(X.function(src, hn, r"^static (?:inline )?std::ostream& %s\(std::ostream& os, double \w+\)" % re.escape(hn)))
+    write(work, "double_helper.inc", "\n".join(h.text for h in helpers) + "\n")
+    slices += [ccl] + helpers
     write(work, "query_print_funcs.inc", qtxt)
     slices += q + [fc] + bl + [ist, pbt] + qcl
     qobj = builder.cc(os.path.join(CDIR, "pq03.cpp"), includes=[work, os.path.join(X.REPO, "include")], cpp=True)
+    jobs.append(F.Job("c03_query_compare", "h_c03_query_compare", [qobj, hobj], timeout=300, unwind=42,
+                      functions=["ExpressionBuilder::expr_proba_compare", "expression_t::print (PROBA_CMP)", "expression_t::print_bound_type", "expression_t::get_value (assertions)"]))
     for nm, fns in (("quantitative", ["ExpressionBuilder::expr_proba_quantitative", "expression_t::print (PROBA_BOX/PROBA_DIAMOND)"]),
                     ("qualitative", ["ExpressionBuilder::expr_proba_qualitative", "expression_t::print (PROBA_MIN_BOX/PROBA_MIN_DIAMOND)"]),
                     ("expected", ["ExpressionBuilder::expr_proba_expected", "expression_t::print (PROBA_EXP)"])):
-        jobs.append(F.Job("c03_query_" + nm, "h_c03_query_" + nm, [qobj, hobj], timeout=300, unwind=26, functions=fns + ["expression_t::print_bound_type", "expression_t::get_value/get_double_value (assertions)"]))
+        jobs.append(F.Job("c03_query_" + nm, "h_c03_query_" + nm, [qobj, hobj], timeout=300, unwind=42, functions=fns + ["expression_t::print_bound_type", "expression_t::get_value/get_double_value (assertions)"]))
+    jobs.append(F.Job("c03_double_text", "h_c03_double_text", [qobj, hobj], timeout=300, unwind=42,
+                      functions=["expression_t::print (CONSTANT clause)", "expression_t::print (probability bound of PROBA_MIN_BOX/PROBA_MIN_DIAMOND)"] + [h.name + " (expression.cpp, static)" for h in helpers],
+                      note="K3: a floating-point constant is written as text that reads back as exactly the same value and lexes as a floating-point literal; libc conversions by assumed contracts A-fp1..3"))
     return {
         "jobs": jobs, "slices": [s.info() for s in slices],
         "drops": ["operator spellings and all other text the printer emits (only parentheses and which child is printed are logged)",
